@@ -36,16 +36,20 @@ SameSkeleton(A, B) ==
     /\ Len(A) = Len(B)
     /\ \A i \in 1..Len(A) : A[i].k = B[i].k /\ (A[i].k = "general" => A[i].v = B[i].v)
 
+LexOf(t, x) == IF "vflag" \in DOMAIN t /\ t.vflag THEN LexV(x) ELSE Lex(x)
+
 Verdict(t) ==
     IF t.ea # "" THEN "skip:transpile-raised"
-    ELSE IF ~t.ca /\ ~t.raw /\ t.eb = "" /\ t.cb /\ SameSkeleton(Lex(t.a), Lex(t.b)) /\ t.ta # t.tb
+    \* (for code that does not compile the identifiers are taken from the name sites of the text)
+    ELSE IF \E i \in 1..Len(t.idents) : ~IdentOK(t.idents[i]) THEN "violation:program-text-in-identifier"
+    ELSE IF ~t.ca /\ ~t.raw /\ t.eb = "" /\ t.cb /\ SameSkeleton(LexOf(t, t.a), LexOf(t, t.b)) /\ t.ta # t.tb
          \* the benign payload compiles, this one (same Vyxal skeleton) changes Python's TOKEN structure:
          \* program text has left its literal (whether or not the result happens to compile)
          THEN "violation:payload-changes-python-tokens"
     ELSE IF ~t.ca THEN "skip:does-not-compile"
     ELSE IF \E i \in 1..Len(t.idents) : ~IdentOK(t.idents[i]) THEN "violation:program-text-in-identifier"
     ELSE IF t.raw THEN "ok"
-    ELSE IF ~SameSkeleton(Lex(t.a), Lex(t.b)) THEN "skip:payload-leaves-the-slot"
+    ELSE IF ~SameSkeleton(LexOf(t, t.a), LexOf(t, t.b)) THEN "skip:payload-leaves-the-slot"
     ELSE IF t.eb # "" \/ ~t.cb THEN "skip:benign-does-not-compile"
     ELSE IF t.sa # t.sb THEN "violation:payload-changes-python-shape"
     ELSE "ok"
